@@ -2506,6 +2506,12 @@ MUTANTS = [
     _m('loop-variable-never-unregistered', GEN2, "    s.loop_var_env.remove( loop_var_name )\n", "", 'R-C10-namescope'),
     _m('loop-variable-registered-after-body', GEN2, "    s.loop_var_env.add( loop_var_name )\n    var = bir.LoopVarDecl( node.target.id )", "    var = bir.LoopVarDecl( node.target.id )", 'R-C10-namescope'),
     _m('name-global-taken-for-temporary', GEN2, "    if (not node.id in s.closure) and (not node.id in s.globals):", "    if (not node.id in s.closure):", 'R-C10-namescope'),
+    # tenth round: (lower, upper) pair handed to bir.Slice
+    _m('slice-object-start-size-py39', GEN[0], "    if isinstance( idx, bir.FreeVar ) and isinstance( idx.obj, slice ):\n      slice_obj = idx.obj\n      if slice_obj.step is not None:\n        raise PyMTLSyntaxError( s.blk, node,\n          'Slice with steps is not supported!' )\n      assert isinstance( slice_obj.start, int ) and \\\n             isinstance( slice_obj.stop, int ), \\\n          f\"start and stop of slice object {slice_obj} must be integers!\"\n      ret = bir.Slice( value,\n            bir.Number(slice_obj.start), bir.Number(slice_obj.stop) )",
+       "    if isinstance( idx, bir.FreeVar ) and isinstance( idx.obj, slice ):\n      slice_obj = idx.obj\n      if slice_obj.step is not None:\n        raise PyMTLSyntaxError( s.blk, node,\n          'Slice with steps is not supported!' )\n      assert isinstance( slice_obj.start, int ) and \\\n             isinstance( slice_obj.stop, int ), \\\n          f\"start and stop of slice object {slice_obj} must be integers!\"\n      base = bir.Number( slice_obj.start )\n      size = bir.Number( slice_obj.stop - slice_obj.start )\n      ret = bir.Slice( value, base, size )", 'R-C10-slicepair'),
+    _m('slice-object-bounds-swapped-py38', GEN[0], "        ret = bir.Slice( value,\n              bir.Number(slice_obj.start), bir.Number(slice_obj.stop) )", "        ret = bir.Slice( value,\n              bir.Number(slice_obj.stop), bir.Number(slice_obj.start) )", 'R-C10-slicepair'),
+    _m('literal-slice-pair-swapped', GEN[0], "    return ( s.visit( node.lower ), s.visit( node.upper ) )", "    return ( s.visit( node.upper ), s.visit( node.lower ) )", 'R-C10-slicepair'),
+    _m('literal-slice-upper-inclusive-py39', GEN[0], "      lower, upper = s.visit( node.slice )\n      ret = bir.Slice( value, lower, upper )", "      lower, upper = s.visit( node.slice )\n      ret = bir.Slice( value, lower, lower )", 'R-C10-slicepair', count=2),
     # literal width
     _m('float-log-reintroduced-L1', TC1, "      return value.bit_length()\n", "      return math.ceil(math.log2(value+1))\n", 'R-intlog'),
     _m('float-log-reintroduced-rdt', RDT, "    return value.bit_length()\n", "    return ceil(log2(value+1))\n", 'R-C10-litwidth'),
@@ -2584,6 +2590,8 @@ MUTANTS = [
 ]
 
 EQUIV = [
+    _m('slice-object-pair-via-helper-names', GEN[0], "      ret = bir.Slice( value,\n            bir.Number(slice_obj.start), bir.Number(slice_obj.stop) )", "      lo_node = bir.Number( slice_obj.start )\n      hi_node = bir.Number( slice_obj.stop )\n      ret = bir.Slice( value, lo_node, hi_node )"),
+    _m('literal-slice-pair-unpacked-later', GEN[0], "    return ( s.visit( node.lower ), s.visit( node.upper ) )", "    lo = s.visit( node.lower )\n    hi = s.visit( node.upper )\n    return ( lo, hi )"),
     _m('name-lookup-as-nested-if', GEN2, "      if node.id in s.loop_var_env:\n        ret = bir.LoopVar( node.id )\n      elif node.id in s.tmp_var_env:\n        ret = bir.TmpVar( node.id, s._upblk_name )\n      elif isinstance",
        "      is_loop = node.id in s.loop_var_env\n      is_tmp = not is_loop and node.id in s.tmp_var_env\n      if is_loop:\n        ret = bir.LoopVar( node.id )\n      elif is_tmp:\n        ret = bir.TmpVar( node.id, s._upblk_name )\n      elif isinstance"),
     dict(name='name-lookup-through-chainmap', edits=[
